@@ -4,6 +4,8 @@ package main
 // lowering it to SSA. Nothing of the repository is executed.
 
 import (
+	"encoding/json"
+	_ "embed"
 	"fmt"
 	"go/ast"
 	"go/constant"
@@ -171,10 +173,109 @@ func shortFn(fn *ssa.Function) string {
 // Func resolves "rcproxy/core.(*conn).write" style keys. nil if absent.
 func (p *Prog) Func(key string) *ssa.Function {
 	f := p.byName[key]
+	if f == nil {
+		f = p.renamedAnchor(key)
+	}
 	if f != nil && p.anchors != nil {
 		p.anchors[f] = true
 	}
+	if f != nil {
+		requestedAnchors[key] = f
+	}
 	return f
+}
+
+// requestedAnchors records every anchor the rules asked for (used by `rcvet anchors` to regenerate anchor_sigs.json).
+var requestedAnchors = map[string]*ssa.Function{}
+
+//go:embed anchor_sigs.json
+var anchorSigsJSON []byte
+
+type anchorSig struct {
+	Pkg     string   `json:"pkg"`
+	Sig     string   `json:"sig"`
+	Callers []string `json:"callers"`
+}
+
+var anchorSigs map[string]anchorSig
+
+func sigOf(fn *ssa.Function) string {
+	sg := fn.Signature
+	var ps, rs []string
+	for i := 0; i < sg.Params().Len(); i++ {
+		ps = append(ps, sg.Params().At(i).Type().String())
+	}
+	for i := 0; i < sg.Results().Len(); i++ {
+		rs = append(rs, sg.Results().At(i).Type().String())
+	}
+	v := ""
+	if sg.Variadic() {
+		v = "..."
+	}
+	return "(" + strings.Join(ps, ", ") + v + ") (" + strings.Join(rs, ", ") + ")"
+}
+
+func (p *Prog) directCallers(fn *ssa.Function) []string {
+	set := map[string]bool{}
+	for _, s := range p.SitesOf(fn) {
+		if s.Fn.Synthetic == "" {
+			set[outermost(s.Fn).Name()] = true
+		}
+	}
+	var out []string
+	for k := range set {
+		out = append(out, k)
+	}
+	sort.Strings(out)
+	return out
+}
+
+// renamedAnchor: the function the rules anchor on is not there under its name. If the pinned tree's record of that
+// anchor (package, signature without receiver, callers) matches exactly one function of the package that is not
+// itself a recorded anchor, the function was renamed (or turned from a method into a function): use it.
+func (p *Prog) renamedAnchor(key string) *ssa.Function {
+	if anchorSigs == nil {
+		anchorSigs = map[string]anchorSig{}
+		_ = json.Unmarshal(anchorSigsJSON, &anchorSigs)
+	}
+	rec, ok := anchorSigs[key]
+	if !ok || p.SSA == nil {
+		return nil
+	}
+	known := map[string]bool{}
+	for k := range anchorSigs {
+		if f := p.byName[k]; f != nil {
+			known[fnKey(f)] = true
+		}
+	}
+	var cands []*ssa.Function
+	for _, fn := range p.Funcs {
+		if fn.Synthetic != "" || fn.Blocks == nil || fn.Parent() != nil || calleePkg(fn) != rec.Pkg || known[fnKey(fn)] {
+			continue
+		}
+		if sigOf(fn) != rec.Sig {
+			continue
+		}
+		// at least one recorded caller still calls it (when callers were recorded)
+		if len(rec.Callers) > 0 {
+			hit := false
+			for _, cn := range p.directCallers(fn) {
+				for _, want := range rec.Callers {
+					if cn == want {
+						hit = true
+					}
+				}
+			}
+			if !hit {
+				continue
+			}
+		}
+		cands = append(cands, fn)
+	}
+	if len(cands) == 1 {
+		return cands[0]
+	}
+	return nil
 }
 
 // Method resolves a method of a named type of a package: Method("rcproxy/core", "conn", "write").
